@@ -79,7 +79,7 @@ CHECKS = {
  "C04": dict(
   technique="exhaustive identity-matrix grid of synthesised call trees through the real DeliverTx with a frame rule on account snapshots, plus explicit-state exploration (DFS, digest dedup) of allowance histories with a per-step allowance rule",
   engine="E1",
-  text="Part A: {signer directly, contract, nested contract} x 16 state-changing staking / distribution / ICS-20 / authorization methods x named account {signer, calling contract, third party, other contract} x grant state {none, signer->caller, third->caller, both} (544 scenarios): after the transaction, funds, stake, unbonding entries, withdraw address and granted authorizations of every account other than the signer and the immediate caller must be unchanged (funds may grow), and staking effects on the signer from a contract need a grant. Part B: every sequence <= 3 (thorough 4) over approve / increaseAllowance / decreaseAllowance / revoke / native grant with validator allow-list or of another message type / spend via a contract to two validators with 4 amounts, failure bubbled or swallowed / jump past expiry: a delegation for the signer happens only under a live grant covering validator and amount, a limited grant is reduced by exactly the amount (deleted at 0), and authorization methods do exact arithmetic. Part C: the same exploration over ICS-20 allowance histories (approve 5|10 on channel-0, increase, decrease 3|all|100, revoke, transfer via a contract on the granted / another channel for 4 amounts with failure bubbled or swallowed, expiry jump) with the escrow account as spend witness: a transfer of the signer's coins from a contract needs a live grant covering channel and amount, reduces the allocation by exactly the amount and leaves the expiry alone. Thorough: depth 5.",
+  text="Part A: {signer directly, contract, nested contract} x 16 state-changing staking / distribution / ICS-20 / authorization methods x named account {signer, calling contract, third party, other contract} x grant state {none, signer->caller, third->caller, both}, and where the third party is named also its withdraw address {own, the caller, the signer} (634 scenarios): after the transaction, funds, stake, unbonding entries, pending rewards, withdraw address and granted authorizations of every account other than the signer and the immediate caller must be unchanged (funds may grow), and staking effects on the signer from a contract need a grant. Part B: every sequence <= 3 (thorough 4) over approve / increaseAllowance / decreaseAllowance / revoke / native grant with validator allow-list or of another message type / spend via a contract to two validators with 4 amounts, failure bubbled or swallowed / jump past expiry: a delegation for the signer happens only under a live grant covering validator and amount, a limited grant is reduced by exactly the amount (deleted at 0), and authorization methods do exact arithmetic. Part C: the same exploration over ICS-20 allowance histories on two channels (approve channel-0:10 or channel-0:10 + channel-1:5, increase / decrease 3|all|100 per channel, revoke, transfer via a contract per channel for 3 amounts with failure bubbled or swallowed, expiry jump) with the escrow accounts as spend witness: an allowance change or a spend touches only the allocation of its own channel, a change for a channel without allocation fails, a transfer of the signer's coins from a contract needs a live grant covering channel and amount, reduces the allocation by exactly the amount and leaves the expiry alone. Thorough: depth 5.",
   note="Gas price 0. ICS-20 runs over transfer channel ends written on ibc-go's localhost connection. No ERC-20 precompile is active at this commit.",
   design="DESIGN.md §3 C04"),
  "C08": dict(
